@@ -10,6 +10,7 @@ package hostfs
 import (
 	"errors"
 	"io"
+	"io/fs"
 	"os"
 	"time"
 )
@@ -28,6 +29,10 @@ var (
 	Log []string
 
 	ErrNotExist = errors.New("no such file or directory")
+	// ErrNameTooLong: a path of PathMax bytes or more is refused by every call
+	// (ENAMETOOLONG; MkdirAll creates nothing in that case, the OS would still
+	// create the prefix that fits - only reachable by runaway recursion).
+	ErrNameTooLong = errors.New("file name too long")
 	ErrNotDir   = errors.New("not a directory")
 	ErrIsDir    = errors.New("is a directory")
 	ErrNotEmpty = errors.New("directory not empty")
@@ -51,6 +56,17 @@ func Reset() {
 	handles = map[*os.File]*handle{}
 	Log = nil
 }
+
+// PathMax stands in for PATH_MAX (4096 on Linux): every call refuses a path
+// of that many bytes or more. The model uses a smaller limit so that code
+// which chases its own output (a directory copied into itself) ends with the
+// same verdict as on the host - an error and a tree that is too deep - within
+// the engine's budgets; the harness trees (depth <= 4, names <= 3 bytes under
+// a 30 byte base) cannot produce such a path in any other way, and every
+// counterexample is replayed natively, where the real limit applies.
+const PathMax = 256
+
+func tooLong(p string) bool { return len(p) >= PathMax }
 
 // split resolves a path lexically into segments ("/a/./b/../c" -> a, c).
 func split(p string) []string {
@@ -140,6 +156,9 @@ func infoOf(n *node, name string) os.FileInfo { return info{name, n.dir, int64(l
 
 func Stat(p string) (os.FileInfo, error) {
 	logPath(p)
+	if tooLong(p) {
+		return nil, ErrNameTooLong
+	}
 	segs := split(p)
 	n, err := walkTo(segs)
 	if err != nil {
@@ -170,6 +189,9 @@ func rawBase(p string) string {
 
 func MkdirAll(p string, perm os.FileMode) error {
 	logPath(p)
+	if tooLong(p) {
+		return ErrNameTooLong
+	}
 	cur := root
 	for _, s := range split(p) {
 		if !cur.dir {
@@ -199,6 +221,9 @@ func removeKid(parent *node, name string) {
 
 func Remove(p string) error {
 	logPath(p)
+	if tooLong(p) {
+		return ErrNameTooLong
+	}
 	segs := split(p)
 	if len(segs) == 0 {
 		return ErrInvalid
@@ -229,6 +254,9 @@ func Remove(p string) error {
 
 func RemoveAll(p string) error {
 	logPath(p)
+	if tooLong(p) {
+		return ErrNameTooLong
+	}
 	if n := len(p); n > 0 && p[n-1] == '.' && (n == 1 || p[n-2] == '/') {
 		return ErrInvalid // os.RemoveAll refuses paths ending in "."
 	}
@@ -262,6 +290,9 @@ const (
 
 func OpenFile(p string, flag int, perm os.FileMode) (*os.File, error) {
 	logPath(p)
+	if tooLong(p) {
+		return nil, ErrNameTooLong
+	}
 	segs := split(p)
 	wr := flag&(oWRONLY|oRDWR) != 0
 	rd := flag&oWRONLY == 0
@@ -437,6 +468,9 @@ func sortedKids(n *node) []*node {
 
 func ReadDir(p string) ([]os.FileInfo, error) {
 	logPath(p)
+	if tooLong(p) {
+		return nil, ErrNameTooLong
+	}
 	n, err := walkTo(split(p))
 	if err != nil {
 		return nil, err
@@ -453,6 +487,9 @@ func ReadDir(p string) ([]os.FileInfo, error) {
 
 func ReadFile(p string) ([]byte, error) {
 	logPath(p)
+	if tooLong(p) {
+		return nil, ErrNameTooLong
+	}
 	n, err := walkTo(split(p))
 	if err != nil {
 		return nil, err
@@ -504,6 +541,9 @@ func Walk(rootPath string, fn func(path string, info os.FileInfo, err error) err
 	if err == nil && needDir(rootPath) && !n.dir {
 		err = ErrNotDir
 	}
+	if tooLong(rootPath) {
+		err = ErrNameTooLong
+	}
 	if err != nil {
 		return fn(rootPath, nil, err)
 	}
@@ -530,17 +570,24 @@ func cleanJoin(p, name string) string {
 	return out
 }
 
-// SkipDir is returned by the engine in place of filepath.SkipDir.
-var SkipDir = errors.New("skip this directory")
+// SkipDir is filepath.SkipDir (= io/fs.SkipDir).
+var SkipDir = fs.SkipDir
 
 func walk(p string, n *node, name string, fn func(path string, info os.FileInfo, err error) error) error {
 	if !n.dir {
 		return fn(p, infoOf(n, name), nil)
 	}
+	// filepath.Walk reads the names of a directory BEFORE it calls fn for the
+	// directory: entries that fn creates in it are not visited
+	kids := sortedKids(n)
+	if tooLong(p) {
+		// the listing itself fails: one call carrying the error
+		return fn(p, infoOf(n, name), ErrNameTooLong)
+	}
 	if err := fn(p, infoOf(n, name), nil); err != nil {
 		return err
 	}
-	for _, k := range sortedKids(n) {
+	for _, k := range kids {
 		kp := cleanJoin(p, k.name)
 		if err := walk(kp, k, k.name, fn); err != nil {
 			if !k.dir || err != SkipDir {
